@@ -366,5 +366,6 @@ pub fn parts() -> Vec<Box<dyn PartDyn>> {
         enumerate: None,
         shrink_budget: 150,
         confirm_runs: 2,
+            fuzz: None,
     })]
 }
